@@ -82,6 +82,10 @@ def correspondence(ctx, drv):
             ctx.disagreement("simple-model-error", dict(rep, model=m))
             continue
         d = []
+        tv = common.trace_violation(out["trace"], m["trace"])
+        if tv:
+            ctx.violation("%s: %s" % (rep["entry"], tv), dict(rep, model_trace=m["trace"][:60]))
+            continue
         if m["trace"] != out["trace"]:
             i = next((i for i in range(min(len(m["trace"]), len(out["trace"]))) if m["trace"][i] != out["trace"][i]), -1)
             d.append("RNG trace (clock rate / candidate list) at call %d: impl %s model %s" % (
